@@ -400,7 +400,38 @@ def c27(ck, F, tier):
     guarded(ck, rs.spill_rules, F)
 
 
-PROPS = {"C08": c08, "C27": c27, "C31": c31, "C33": c33, "C12": c12, "C13": c13, "C14": c14, "C15": c15, "C16": c16, "C09": c09, "C22": c22, "C34": c34, "C21": c21, "C05": c05, "C28": c28, "C10": c10, "C29": c29, "C17": c17, "C01": c01, "C02": c02, "C03": c03, "C04": c04, "C23": c23, "C26": c26}
+def c30(ck, F, tier):
+    import rules_attr as ra
+    ck.explanation = (
+        "Static decision of coverage and same-named provenance in the style pools: interning (create_new_style + "
+        "get_or_create_component_ids) reads every field of Style and builds the CellXfs record from the style's own parts; "
+        "read-back (get_style) and the dedup comparison (get_style_index) fill every field of Style from the same-named "
+        "CellXfs part through the pool it indexes and from no other; the two number-format lookups share one constant table "
+        "and the id lookup is a first-match loop. Aliasing through imported num_fmts that redefine a built-in id is not decided.")
+    ck.rule("COVER-style", "every Style field is interned and read back from its own slot", floor=20, exhaustive=True)
+    guarded(ck, ra.cover_style, F)
+
+
+def c32(ck, F, tier):
+    import rules_walk as rw
+    import rules_pcfg as rp
+    ck.explanation = (
+        "Static decision of the defined-name plumbing: the parser-configuration typestate and English-storage rules of C10 "
+        "(DefinedName.formula is parsed in A1/default/default and never stored from the localized printer); the rename walker "
+        "recurses into every child-bearing Node variant and handles every variant that names a defined name; "
+        "update_defined_name rewrites the shared formulas of every worksheet; every change of workbook.defined_names reaches "
+        "reset_parsed_structures; xlsx import re-parses names with the English parser and printer. Values of names are not decided.")
+    ck.rule("PCFG", "parser configuration matches the provenance of parsed text; restored at exit", floor=12)
+    ck.rule("STORE-EN", "stored formula text never comes from the localized printer", floor=6)
+    ck.rule("COVER-walk", "walkers recurse into every child-bearing variant", floor=12)
+    ck.rule("NAMES", "rename / reparse plumbing of defined names", floor=7)
+    guarded(ck, rp.pcfg, F)
+    guarded(ck, rp.store_en, F)
+    guarded(ck, rw.cover_walk, F, "COVER-walk", "stringify::rename_defined_name_in_node")
+    guarded(ck, rw.names_rules, F)
+
+
+PROPS = {"C08": c08, "C32": c32, "C30": c30, "C27": c27, "C31": c31, "C33": c33, "C12": c12, "C13": c13, "C14": c14, "C15": c15, "C16": c16, "C09": c09, "C22": c22, "C34": c34, "C21": c21, "C05": c05, "C28": c28, "C10": c10, "C29": c29, "C17": c17, "C01": c01, "C02": c02, "C03": c03, "C04": c04, "C23": c23, "C26": c26}
 
 
 def run(pid, tier):
